@@ -264,7 +264,25 @@ def body_fresh(case, rec):
                   lambda: f"after rewrite #{i} ({case['via']}, {case['fmt']}, mtime={case['mtime']}, path={style}): loaded {np.asarray(got).ravel()[:3]} file holds {want.ravel()[:3]}")
 
 
-PARTS = {"place": body_place, "files": body_files, "fresh": body_fresh}
+# ------------------------------------------------------------------ "all array shapes": tables and images beyond a few kilobytes
+def large_file_cases():
+    out = []
+    for shape in ([8, 400], [400, 8], [3, 2000], [120, 120]):
+        for delim in sorted(DELIMS):
+            for fmt, reader in (("txt", "table"), ("csv", "table"), ("txt", "image"), ("data", "image")):
+                out.append({"shape": shape, "delim": delim, "fmt": fmt, "reader": reader, "vals_seed": shape[0] * 7 + shape[1]})
+    return out
+
+
+def body_large_files(case, rec):
+    rng = np.random.RandomState(case["vals_seed"])
+    rows, cols = case["shape"]
+    vals = [float(x) for x in rng.uniform(-1e4, 1e4, size=rows * cols).round(6)]  # ~12 characters per value: rows of several kilobytes
+    rec.cls(f"large:{rows}x{cols}")
+    body_files(dict(case, kind="float", vals=vals, np_dtype="float64"), rec)
+
+
+PARTS = {"place": body_place, "files": body_files, "fresh": body_fresh, "large_files": body_large_files}
 
 
 def plan(tier):
@@ -273,4 +291,5 @@ def plan(tier):
         Part(name="place", kind="gen", strategy=place_cases, examples=400 if q else 4000),
         Part(name="files", kind="gen", strategy=file_cases, examples=300 if q else 2000),
         Part(name="fresh", kind="gen", strategy=fresh_cases, examples=60 if q else 500),
+        Part(name="large_files", kind="enum", cases=large_file_cases),
     ]
